@@ -70,6 +70,11 @@ CLAIMED = {
          "seeded search over histories of open/next/close/release/reconnect/advance on 1-4 concurrent streams from 1-2 proxies x source shapes (generator/list, empty, long, raising at k) x ITER_STREAMING on/off x lifetime {0,5,20} x linger {0,3,10} x clock advances up to 30 s x server types x schedules (expiry-race shape: close/fetch at the instant of the housekeeping pass after expiry); oracle: each stream yields a gap-free duplicate-free prefix of its own source in order, ends/raises exactly as the model allows (never an item from a forgotten stream, never an error while must-be-live), reconnect within linger continues, the stream table is empty at the end, no server thread dies",
          "samples histories and schedules; client ops run sequentially across proxies; no network faults in this world (C03 covers them); expiry is demanded only after an observed housekeeping pass (may/must split)",
          "DESIGN.md section 4 C10"),
+ "C09": ("exploration",
+         "deterministic simulation: real Daemon (both server types) with registered classes of every instance mode x instance shape x creator behaviour, real Proxy clients in own threads; concurrent first calls released together with line pre-emption inside Daemon._getInstance/createInstance; liveness of session instances observed through weakrefs at explicit GC points",
+         "seeded search over histories of 2-4 connections opening, calling, closing (release or reset), reconnecting against single/session/percall classes x shapes (truthy, falsy via __len__/__bool__, __eq__ always true/false) x creators (none, counting, failing on k-th call, wrong type) x server types x schedules; oracle: single -> one serial for all successful calls and one construction; session -> constant serial per connection, distinct across connections, instance dead after the connection ended; percall -> all serials distinct; creator invocations == instances + failed attempts, a failed attempt surfaces as an error reply to that call only",
+         "samples histories and schedules; pre-emption at source lines of _getInstance only; create_single_instance_lock replaced by a counting subclass of the simulated lock",
+         "DESIGN.md section 4 C09"),
 }
 PENDING = "claimed in DESIGN.md but its check is not built yet; see DESIGN.md section 4"
 ALL = ["C%02d" % i for i in range(1, 21)]
